@@ -1,6 +1,7 @@
 import Driver.OpsTemplate
 import BufrModel.SetValue
 import BufrModel.Decode
+import BufrModel.Merge
 import BufrSpec.RefDecode
 import BufrSpec.RefEncode
 /- driver ops for values, Section 4 encoding and decoding (C01–C04, C07, C14) -/
@@ -32,6 +33,7 @@ def fmtItem (it : Spec.Item) : String :=
 structure CodecSt where
   decoded : Array (List Node) := #[]
   decInvalid : Bool := false
+  decTmpl : Option Template := none                -- template the decoded dataset was built with
   last : Option (Nat × Nat × List Nat) := none     -- flag, nsub, Section 4 bytes of the last ds.encode
 
 /-- deterministic pseudo-random 64-bit word from (seed, index), same formula in the harness -/
@@ -152,7 +154,7 @@ partial def stepCodec (st : TmplSt) (cs : CodecSt) (toks : List String) : Option
         | .error .null => some (st, cs, "crash")
         | .ok none => some (st, { cs with decoded := #[] }, "null")
         | .ok (some out) =>
-          some (st, { decoded := out.subsets.toArray, decInvalid := out.invalid },
+          some (st, { decoded := out.subsets.toArray, decInvalid := out.invalid, decTmpl := some t, last := cs.last },
             s!"ok {if out.invalid then 1 else 0} {out.subsets.length}")
     | _, _, _, _, _, _, _, _ => some (st, cs, "bad-op")
   | ["ds.decodelast", enf, fr, to] =>
@@ -199,6 +201,26 @@ partial def stepCodec (st : TmplSt) (cs : CodecSt) (toks : List String) : Option
         | some subs' => if subs' = subs then some (st, cs, s!"{flag'} {toHex (Spec.bitsToBytes bits)}") else some (st, cs, "spec-mismatch")
         | none => some (st, cs, "spec-reject")
     | _, _, _, _, _, _ => some (st, cs, "bad-op")
+  | ["dd.tocur"] =>
+    -- the decoded dataset becomes the current one
+    match cs.decTmpl with
+    | some t =>
+      some ({ st with tmpl := some t, subsets := cs.decoded.map (fun ns => ({ nodes := ns } : Subset)), invalid := cs.decInvalid },
+            { cs with decoded := #[], decTmpl := none }, s!"ok {cs.decoded.size}")
+    | none => some (st, cs, "none")
+  | ["dd.merge", dp, sp, nb] =>
+    -- `bufr_merge_dataset(current, dest_pos, decoded, src_pos, nb)`
+    match dp.toInt?, sp.toInt?, nb.toInt?, st.tmpl, cs.decTmpl with
+    | some dp, some sp, some nb, some td, some tsrc =>
+      if dp < 0 ∨ sp < 0 then some (st, cs, "neg")      -- outside the model (and the property)
+      else
+        match createDatasubset T defaultFuel td with
+        | .error _ => some (st, cs, "diverge")
+        | .ok (blank, _) =>
+          let (rc, subs) := mergeDataset (sameTemplate td tsrc) blank.nodes (st.subsets.toList.map (·.nodes))
+            cs.decoded.toList dp.toNat sp.toNat nb
+          some ({ st with subsets := (subs.map fun ns => ({ nodes := ns } : Subset)).toArray }, cs, s!"{rc} {subs.length}")
+    | _, _, _, _, _ => some (st, cs, "none")
   | ["dd.list", k] =>
     match k.toNat? with
     | some k => match cs.decoded[k]? with
